@@ -2,8 +2,8 @@
 granularity — the `closed` flag is flipped under the connection mutex in five places (`closeWithError`, and the
 error branches of `Write`, `Writev`, `flush`, `Sendfile`); the teardown (`closeWithErrorWithoutLock`: record the
 cause, fail a pending dial, release the write queue, leave the fd table, notify, close the descriptor) runs
-outside that critical section and only in the goroutine that flipped the flag; `addConn` is a closed test and three
-separate statements (open notification, fd table, epoll registration); an asynchronous dial is `pending` until the
+outside that critical section and only in the goroutine that flipped the flag; `addConn` is a closed test and four
+separate statements (`c.p = p`, open notification, fd table, epoll registration); an asynchronous dial is `pending` until the
 poller sees writability (`dialed`: SO_ERROR decides) or the close path fails it; the dial timeout is armed in a
 separate step, only while the dial is pending.
 
@@ -49,10 +49,10 @@ structure Conn where
   wTdial : Bool := false        -- … and it is the dial timeout
   log : Nat := 0                -- syscalls issued on the descriptor
   fdOpen : Bool := true
-  add : Nat := 0                -- addConn: 0 not started, 1 closed test passed, 2 announced, 3 in table, 4 done, 5 refused
+  add : Nat := 0                -- addConn: 0 not started, 1 closed test passed, 2 `c.p` set, 3 announced, 4 in table, 5 done, 6 refused
   wg : Int := 0                 -- ghost: this conn's contribution to the engine's connection wait group
   early : Bool := false         -- ghost: a close notification was issued before the open notification
-  raced : Bool := false         -- ghost: the holder of the *Conn closed it between addConn's closed test and its announcement
+  raced : Bool := false         -- ghost: the holder of the *Conn closed it between addConn's closed test and its open notification
   unmanaged : Bool := false     -- ghost: the teardown ran while no poller owned the conn (no notification)
   byDialTimer : Bool := false   -- ghost: the flag was flipped by the dial timeout
   deriving DecidableEq, Repr
@@ -64,7 +64,7 @@ def flip (c : Conn) (e : Err) (stop : Bool) : Conn :=
   if c.closed then c
   else { c with closed := true, td := some e, cause := some e,
                 rT := if stop then false else c.rT, wT := if stop then false else c.wT,
-                raced := c.raced || decide (c.add = 1) }
+                raced := c.raced || decide (c.add = 1 ∨ c.add = 2) }
 
 /-- `closeWithErrorWithoutLock`, run by the flipper after the flip -/
 def teardown (c : Conn) : Conn :=
@@ -89,20 +89,21 @@ def userOp (c : Conn) (sys : Nat) : Conn × Bool :=
 /-- `Close` / `CloseWithError` as one sequential call (flipper runs the teardown before it returns) -/
 def closeNow (c : Conn) (e : Err) : Conn := if c.closed then c else teardown (flip c e true)
 
-/-- `addConn`: the closed test (an already closed conn is refused), then the three statements -/
-def addCheck (c : Conn) : Conn := if c.closed then { c with add := 5 } else { c with add := 1 }
-def addOpen (c : Conn) : Conn := { c with pSet := true, opens := c.opens + 1, visible := true, wg := c.wg + 1, add := 2 }
-def addTable (c : Conn) : Conn := { c with inTable := true, add := 3 }
+/-- `addConn`: the closed test (an already closed conn is refused), then the four statements -/
+def addCheck (c : Conn) : Conn := if c.closed then { c with add := 6 } else { c with add := 1 }
+def addP (c : Conn) : Conn := { c with pSet := true, add := 2 }
+def addOpen (c : Conn) : Conn := { c with opens := c.opens + 1, visible := true, wg := c.wg + 1, add := 3 }
+def addTable (c : Conn) : Conn := { c with inTable := true, add := 4 }
 /-- `addRead`: on a descriptor that was closed meanwhile (a `Close` from inside the open notification) epoll_ctl
     fails, `addConn` takes the conn out of the table again and its `closeWithError` finds the flag already set -/
 def addReg (c : Conn) : Conn :=
-  if c.fdOpen then { c with reg := true, log := c.log + 1, add := 4 } else { c with inTable := false, add := 4 }
+  if c.fdOpen then { c with reg := true, log := c.log + 1, add := 5 } else { c with inTable := false, add := 5 }
 
 /-- `readUDP`: `getConn` creates the session of a new remote and `onOpen` announces it (under the listener's mutex) -/
-def sessOpen (c : Conn) : Conn := { c with pSet := true, opens := c.opens + 1, visible := true, wg := c.wg + 1, add := 4 }
+def sessOpen (c : Conn) : Conn := { c with pSet := true, opens := c.opens + 1, visible := true, wg := c.wg + 1, add := 5 }
 
 /-- `AddConn` of a UDP listener: `onUDPListen`, table, registration; the listener itself is not counted or notified -/
-def udpListen (c : Conn) : Conn := { c with pSet := true, visible := true, inTable := true, reg := true, add := 4, log := c.log + 1 }
+def udpListen (c : Conn) : Conn := { c with pSet := true, visible := true, inTable := true, reg := true, add := 5, log := c.log + 1 }
 
 /-- `DialAsyncTimeout` after a connect that is in progress: conn with the callback stored, `addDialer` -/
 def dialStart (c : Conn) : Conn :=
@@ -140,7 +141,7 @@ def timerW (c : Conn) : Conn :=
   else { flip c (if c.wTdial then .dtimeout else .wtimeout) true with byDialTimer := c.wTdial }
 
 inductive Act
-  | addCheck | addOpen | addTable | addReg
+  | addCheck | addP | addOpen | addTable | addReg
   | sessOpen | udpListen
   | dialStart | dialStartFail (e : Err) | dialNow | armDial
   | kconnect (r : Option Err)            -- the kernel finishes the non-blocking connect
@@ -160,9 +161,10 @@ inductive Act
     writability of a dialing socket is only reported once the kernel has a verdict (assumption). -/
 def step (c : Conn) : Act → Option Conn
   | .addCheck => if (c.kind == .add || c.kind == .acc) && c.add == 0 then some (addCheck c) else none
-  | .addOpen => if (c.kind == .add || c.kind == .acc) && c.add == 1 then some (addOpen c) else none
-  | .addTable => if (c.kind == .add || c.kind == .acc) && c.add == 2 then some (addTable c) else none
-  | .addReg => if (c.kind == .add || c.kind == .acc) && c.add == 3 then some (addReg c) else none
+  | .addP => if (c.kind == .add || c.kind == .acc) && c.add == 1 then some (addP c) else none
+  | .addOpen => if (c.kind == .add || c.kind == .acc) && c.add == 2 then some (addOpen c) else none
+  | .addTable => if (c.kind == .add || c.kind == .acc) && c.add == 3 then some (addTable c) else none
+  | .addReg => if (c.kind == .add || c.kind == .acc) && c.add == 4 then some (addReg c) else none
   | .sessOpen => if c.kind == .sess && c.add == 0 && !c.closed then some (sessOpen c) else none
   | .udpListen => if c.kind == .udp && c.add == 0 && !c.closed then some (udpListen c) else none
   | .dialStart => if c.kind == .dial && c.dial == .none && !c.closed then some (dialStart c) else none
